@@ -28,12 +28,57 @@ K_F12 = "C13/default-spelling/falsy-invalid-default"
 K_PEP604 = "C13/pep604/plain-type-union-ignored"
 K_TUPLE = "C13/tuple/single-class-item"
 K_FUTURE = "C13/future-annotations/long-annotation-ignored"
+K_MUTABLE = "C13/default-spelling/mutable-default-rejected-by-equals"
 
 
 # ----------------------------------------------------------------------------- generation
 
+UNION_MEMBER_POOL = [
+    {"t": "num", "k": "Integer", "s": "Any"}, {"t": "num", "k": "Float", "s": "Any"}, {"t": "str"}, {"t": "bool"},
+    {"t": "seqeach", "k": "list", "item": {"t": "num", "k": "Integer", "s": "Any"}, "sz": [None, None], "uniq": False},
+    {"t": "seqeach", "k": "list", "item": {"t": "str"}, "sz": [None, None], "uniq": False},
+    {"t": "mapkv", "kf": {"t": "str"}, "vf": {"t": "num", "k": "Integer", "s": "Any"}, "sz": [None, None]},
+    {"t": "set", "imm": False, "item": {"t": "str"}, "sz": [None, None]},
+    {"t": "tuple", "items": [{"t": "num", "k": "Integer", "s": "Any"}, {"t": "str"}], "uniq": False},
+    {"t": "seqany", "k": "list", "sz": [None, None], "uniq": False}, {"t": "mapany", "sz": [None, None]},
+    {"t": "num", "k": "Integer", "s": "Positive"}, {"t": "num", "k": "Integer", "s": "Any", "min": ("int", 1)},
+    {"t": "str", "min": 2}, {"t": "ref", "cls": "Inner"}, {"t": "ref", "cls": "Other"},
+]
+
+
+def gen_union_field(rnd, ctx, max_depth):
+    """An AnyOf of 2-4 pairwise different members, with None at a random position (70%): the declarations that
+    have typing spellings (Union, Optional, nested Unions) next to the AnyOf ones."""
+    n = rnd.choice([2, 2, 3, 3, 4])
+    with_none = rnd.random() < 0.7
+    k = n - 1 if with_none else n
+    members = []
+    seen = set()
+    for _ in range(40):
+        if len(members) == k:
+            break
+        if rnd.random() < 0.75:
+            g = dict(rnd.choice(UNION_MEMBER_POOL))
+        else:
+            g = simplify(rnd, G.gen_field(rnd, 1, classes=ctx.class_names(), max_depth=max_depth))
+            if g["t"] == "none" or not P.spellable(g):
+                continue
+        key = repr(P.norm_field(g))
+        if key in seen:
+            continue
+        seen.add(key)
+        members.append(g)
+    if with_none:
+        members.insert(rnd.randrange(len(members) + 1), {"t": "none"})
+    return {"t": "anyof", "fs": members}
+
+
 def gen_semantic_field(rnd, ctx, max_depth):
     """A semantic field, biased towards declarations that have several spellings."""
+    if rnd.random() < 0.22:
+        f = gen_union_field(rnd, ctx, max_depth)
+        if P.spellable(f) and len(P.forms(f, "general", rnd)) >= 2:
+            return f
     for _ in range(30):
         f = G.gen_field(rnd, 0, classes=ctx.class_names(), max_depth=max_depth)
         if rnd.random() < 0.55:
@@ -93,6 +138,11 @@ def gen_default(rnd, f):
                        ("int", 100)])
 
 
+def scalar_union(f):
+    """AnyOf of scalar fields (and None): takes a scalar default with `=` (AnyOf has no default= argument)."""
+    return f["t"] == "anyof" and all(g["t"] in DEFAULT_OK_CLASSES + ("none",) for g in f["fs"])
+
+
 def has_none_member(f):
     return f["t"] == "anyof" and any(g["t"] == "none" for g in f["fs"])
 
@@ -105,10 +155,11 @@ def decl_forms(fd, rnd, ctx):
     fieldy = [s for s in P.forms(f, "fieldy", rnd) if union_kept(s, ctx)]
     for s in general:
         self_marking = s[0] in ("union", "optional") and has_none_member(f)
-        if self_marking and not opt:
+        if self_marking and not opt and d is None:
             continue                          # would make the field optional: not a spelling of this member
-        listed = opt and not (self_marking and rnd.random() < 0.6)
-        out.append({"annot": True, "ty": s, "eq": d, "kw": None, "opt": listed})
+        out.append({"annot": True, "ty": s, "eq": d, "kw": None, "opt": opt})
+        if self_marking:                      # the typing spelling marks the field optional by itself
+            out.append({"annot": True, "ty": s, "eq": d, "kw": None, "opt": False})
         if d is not None and s[0] in ("inst", "ctor1", "ctorN") and f["t"] in DEFAULT_OK_CLASSES:
             out.append({"annot": True, "ty": s, "eq": None, "kw": d, "opt": opt})
     for s in fieldy:
@@ -148,9 +199,11 @@ def gen_class_case(rnd, idx, ctx, max_depth):
     for name in NAMES[:nf]:
         f = gen_semantic_field(rnd, ctx, max_depth)
         d = None
-        if f["t"] in DEFAULT_OK_CLASSES and rnd.random() < 0.45 and n_bad_default == 0:
+        if (f["t"] in DEFAULT_OK_CLASSES or scalar_union(f)) and rnd.random() < 0.45 and n_bad_default == 0:
             d = gen_default(rnd, f)
-            if not default_valid(f, d, ctx):
+            if d == ("none",):
+                d = None                   # `= None` is "no default" for typedpy: outside the explored space
+            if d is not None and not default_valid(f, d, ctx):
                 n_bad_default += 1         # at most one rejected default per class (exception precedence)
         p_opt = 0.6 if has_none_member(f) else 0.25
         members.append({"name": name, "f": f, "opt": rnd.random() < p_opt and d is None, "default": d})
@@ -170,7 +223,186 @@ def gen_class_case(rnd, idx, ctx, max_depth):
             ds = list(base)
             ds[i] = x
             variants.append({"decls": ds, "changed": i})
+    # "all combinations of spellings across the fields of one class": every member respelled at once
+    regular = [[x for x in others if not P.defect_tags(x["ty"])] for others in alts]
+    if sum(1 for o in regular if o) >= 2:
+        for _ in range(2):
+            variants.append({"decls": [rnd.choice(o) if o else b for o, b in zip(regular, base)], "changed": "all"})
     return {"idx": idx, "members": members, "variants": variants}
+
+
+def changed_idxs(v):
+    if v["changed"] is None or v["changed"] == "all":
+        return range(len(v["decls"]))
+    return [v["changed"]]
+
+
+# ----------------------------------------------------------------------------- deterministic lattices
+
+INT_F = {"t": "num", "k": "Integer", "s": "Any"}
+
+
+def _dedup_variants(names, variants):
+    seen = set()
+    out = []
+    for v in variants:
+        key = tuple((decl_line(n, d), d["opt"]) for n, d in zip(names, v["decls"]))
+        if key not in seen:
+            seen.add(key)
+            out.append(v)
+    return out
+
+
+def optional_lattice(ctx, idx0, tier):
+    """Every union SHAPE, independently of VERIF_SEED: arity 2-4 x position of None (each, or no None) x a sliding
+    window over UNION_MEMBER_POOL; every typing spelling typing flattens to the same Union (Union as written,
+    Optional[T], Optional[Union[...]], every single nested group), with aligned member spellings (builtin name /
+    Field class / Field instance ...), each listed and NOT listed in _optional, against AnyOf[...] / AnyOf(fields=[...])
+    with the field listed in _optional; a second, required member `b: int` makes absence of `a` observable."""
+    quick = tier == "quick"
+    rnd = random.Random(20240613)             # children of composite members only; independent of VERIF_SEED
+    pool = UNION_MEMBER_POOL
+    steps = {2: 2 if quick else 1, 3: 3 if quick else 2, 4: 5 if quick else 3}
+    n_align = 2 if quick else 4
+    cases = []
+    for n in (2, 3, 4):
+        for p in list(range(n)) + [None]:
+            k = n if p is None else n - 1
+            for w in range(0, len(pool), steps[n]):
+                mems = [pool[(w + i * (1 + w % 3)) % len(pool)] for i in range(k)]
+                if len({repr(P.norm_field(g)) for g in mems}) < k:
+                    continue
+                fs = list(mems)
+                if p is not None:
+                    fs.insert(p, {"t": "none"})
+                f = {"t": "anyof", "fs": fs}
+                opt = p is not None
+                none = ("none",)
+                mforms = [[none] if g["t"] == "none" else P.forms(g, "unionmember", rnd) for g in fs]
+                fforms = [[("fcls", "NoneField")] if g["t"] == "none" else P.forms(g, "fieldy", rnd) for g in fs]
+                b_decl = {"annot": True, "ty": ("name", "int"), "eq": None, "kw": None, "opt": False}
+                mk = lambda annot, ty, o: {"annot": annot, "ty": ty, "eq": None, "kw": None, "opt": o}
+                a_decls = []
+                for j in range(min(n_align, max(len(x) for x in mforms))):
+                    mem = [x[j % len(x)] for x in mforms]
+                    fmem = [x[j % len(x)] for x in fforms]
+                    a_decls.append(mk(True, ("sub", "AnyOf", mem), opt))
+                    a_decls.append(mk(False, ("sub", "AnyOf", mem), opt))
+                    a_decls.append(mk(True, ("ctorN", "AnyOf", fmem, P.NO_SZ, False, None), opt))
+                    a_decls.append(mk(False, ("ctorN", "AnyOf", fmem, P.NO_SZ, False, None), opt))
+                    for shape in P.union_shapes(mem):
+                        a_decls.append(mk(True, shape, opt))
+                        if opt:
+                            a_decls.append(mk(True, shape, False))
+                    if n == 2 and p is None and fs[0]["t"] != "ref":
+                        for right in P.forms(fs[1], "orright", rnd):       # Field | <every spelling of the right operand>
+                            a_decls.append(mk(True, ("or", fmem[0], right), False))
+                            a_decls.append(mk(False, ("or", fmem[0], right), False))
+                a_decls = [d for d in a_decls if union_kept(d["ty"], ctx)]
+                if len(a_decls) < 2:
+                    continue
+                members = [{"name": "a", "f": f, "opt": opt, "default": None},
+                           {"name": "b", "f": dict(INT_F), "opt": False, "default": None}]
+                variants = [{"decls": [a_decls[0], b_decl], "changed": None}]
+                variants += [{"decls": [d, b_decl], "changed": 0} for d in a_decls[1:]]
+                cases.append({"idx": idx0 + len(cases), "members": members,
+                              "variants": _dedup_variants(["a", "b"], variants), "lattice": "optional"})
+    return cases
+
+
+DEFAULT_LATTICE_FIELDS = [
+    {"t": "num", "k": "Integer", "s": "Any"}, {"t": "num", "k": "Integer", "s": "Any", "min": ("int", 5)},
+    {"t": "num", "k": "Float", "s": "Any"}, {"t": "num", "k": "Float", "s": "Any", "max": ("int", -1)},
+    {"t": "num", "k": "Number", "s": "Positive"}, {"t": "num", "k": "Integer", "s": "NonNegative"},
+    {"t": "str"}, {"t": "str", "min": 2}, {"t": "str", "max": 1}, {"t": "bool"},
+    {"t": "anyof", "fs": [{"t": "num", "k": "Integer", "s": "Any"}, {"t": "none"}]},
+    {"t": "anyof", "fs": [{"t": "none"}, {"t": "str", "min": 2}, {"t": "num", "k": "Float", "s": "Any"}]},
+    {"t": "anyof", "fs": [{"t": "num", "k": "Integer", "s": "Positive"}, {"t": "str"}]},
+]
+DEFAULT_LATTICE_VALUES = [0, 0.0, "", False, 1, 5, -3, 2.5, "ab", True]
+
+
+def default_lattice(ctx, idx0, tier):
+    """Every scalar field of DEFAULT_LATTICE_FIELDS x every default of DEFAULT_LATTICE_VALUES (falsy / truthy, valid /
+    ill-typed / out of range), in every declaration form: `a: T = d`, `a: T(default=d)`, `a = T(default=d)` over every
+    spelling of T.  Independent of VERIF_SEED."""
+    rnd = random.Random(77)
+    cases = []
+    for f in DEFAULT_LATTICE_FIELDS:
+        for dv in DEFAULT_LATTICE_VALUES:
+            m = {"name": "a", "f": dict(f), "opt": False, "default": E.reify(dv)}
+            forms = decl_forms(m, rnd, ctx)
+            if has_none_member(f):     # the typing spellings mark the field optional: also declare it so
+                forms += decl_forms(dict(m, opt=True), rnd, ctx)
+            if len(forms) < 2:
+                continue
+            variants = [{"decls": [forms[0]], "changed": None}] + [{"decls": [x], "changed": 0} for x in forms[1:]]
+            cases.append({"idx": idx0 + len(cases), "members": [m], "variants": _dedup_variants(["a"], variants),
+                          "lattice": "default"})
+    return cases
+
+
+MUTABLE_LATTICE = [
+    ({"t": "seqeach", "k": "list", "item": {"t": "num", "k": "Integer", "s": "Any"}, "sz": [None, None], "uniq": False},
+     [[1, 2], [], ["x"]]),
+    ({"t": "seqany", "k": "list", "sz": [None, None], "uniq": False}, [[1, "a"], []]),
+    ({"t": "mapany", "sz": [None, None]}, [{"a": 1}, {}]),
+    ({"t": "mapkv", "kf": {"t": "str"}, "vf": {"t": "num", "k": "Integer", "s": "Any"}, "sz": [None, None]},
+     [{"a": 1}, {}]),
+    ({"t": "set", "imm": False, "item": {"t": "str"}, "sz": [None, None]}, [{"a"}]),
+]
+
+
+def mutable_default_lattice(ctx, idx0, tier):
+    """list / dict / set defaults on collection fields, written with `=` and with default= over every spelling."""
+    rnd = random.Random(99)
+    cases = []
+    for f, dvs in MUTABLE_LATTICE:
+        for dv in dvs:
+            d = E.reify(dv)
+            decls = []
+            for s in P.forms(f, "general", rnd):
+                if union_kept(s, ctx):
+                    decls.append({"annot": True, "ty": s, "eq": d, "kw": None, "opt": False})
+                    if s[0] in ("inst", "ctor1", "ctorN"):
+                        decls.append({"annot": True, "ty": s, "eq": None, "kw": d, "opt": False})
+            for s in P.forms(f, "fieldy", rnd):
+                if s[0] in ("inst", "ctor1", "ctorN"):
+                    decls.append({"annot": False, "ty": s, "eq": None, "kw": d, "opt": False})
+            m = {"name": "a", "f": dict(f), "opt": False, "default": d}
+            variants = [{"decls": [decls[0]], "changed": None}] + [{"decls": [x], "changed": 0} for x in decls[1:]]
+            cases.append({"idx": idx0 + len(cases), "members": [m], "variants": _dedup_variants(["a"], variants),
+                          "lattice": "mutable-default"})
+    return cases
+
+
+def future_length_lattice(ctx, idx0, tier):
+    """Annotations whose stored text has EVERY length around the bound of _evaluate_if_future_annotations (today 50):
+    `a: Integer(minimum=10...0)` and `a: t.Optional[Integer(minimum=10...0)]` (not listed in _optional), next to a
+    required `b: int`; the base variant is the assignment form, which the __future__ import does not touch."""
+    lo, hi = (40, 60) if tier == "quick" else (30, 80)
+    cases = []
+    b_decl = {"annot": True, "ty": ("name", "int"), "eq": None, "kw": None, "opt": False}
+    for wrap in ("inst", "optional"):
+        for L in range(lo, hi + 1):
+            nd = L - 17 - (12 if wrap == "optional" else 0)
+            if nd < 1:
+                continue
+            g = {"t": "num", "k": "Integer", "s": "Any", "min": ("int", 10 ** (nd - 1))}
+            if wrap == "inst":
+                f, ty, base_ty, opt = g, ("inst", g), ("inst", g), False
+            else:
+                f = {"t": "anyof", "fs": [g, {"t": "none"}]}
+                ty, base_ty, opt = ("optional", ("inst", g)), ("sub", "AnyOf", [("inst", g), ("none",)]), True
+            d_annot = {"annot": True, "ty": ty, "eq": None, "kw": None, "opt": False}
+            assert stored_len(d_annot) == L, (stored_annotation(annot_src(d_annot)), L)
+            d_base = {"annot": False, "ty": base_ty, "eq": None, "kw": None, "opt": opt}
+            members = [{"name": "a", "f": f, "opt": opt, "default": None},
+                       {"name": "b", "f": dict(INT_F), "opt": False, "default": None}]
+            cases.append({"idx": idx0 + len(cases), "members": members, "lattice": "future-length",
+                          "variants": [{"decls": [d_base, b_decl], "changed": None},
+                                       {"decls": [d_annot, b_decl], "changed": 0}]})
+    return cases
 
 
 _REF_CACHE = {}
@@ -187,11 +419,33 @@ def default_valid(f, d, ctx):
 
 # ----------------------------------------------------------------------------- rendering / realisation
 
-def decl_line(name, dc):
+def annot_src(dc):
+    """Source text of the type expression of a declaration (default= included)."""
     if dc["kw"] is not None:
-        src = P.render(dc["ty"], G.py_src(dc["kw"]))
-    else:
-        src = P.render(dc["ty"])
+        return P.render(dc["ty"], G.py_src(dc["kw"]))
+    return P.render(dc["ty"])
+
+
+_STORED = {}
+
+
+def stored_annotation(src):
+    """The text the COMPILER stores for the annotation `src` under `from __future__ import annotations`."""
+    if src not in _STORED:
+        import __future__
+        ns = {}
+        exec(compile("a: " + src, "<annotation>", "exec", flags=__future__.annotations.compiler_flag,
+                     dont_inherit=True), ns)
+        _STORED[src] = ns["__annotations__"]["a"]
+    return _STORED[src]
+
+
+def stored_len(dc):
+    return len(stored_annotation(annot_src(dc))) if dc["annot"] else 0
+
+
+def decl_line(name, dc):
+    src = annot_src(dc)
     if dc["annot"]:
         line = "%s: %s" % (name, src)
         if dc["eq"] is not None:
@@ -251,9 +505,10 @@ def observe_fieldobj(fo):
 
 def observe_class(obj, names, candidates, ctx):
     """Everything the property compares, as plain data."""
-    from typedpy import Serializer
+    from typedpy import Serializer, Deserializer
+    n_deser = 0
     if isinstance(obj, BaseException):
-        return {"def": E.exn_name(obj)}
+        return {"def": E.exn_name(obj), "mutable_msg": "mutable value as default" in str(obj)}
     fields = obj.get_all_fields_by_name()
     out = {"def": "ok", "fields": sorted(fields.keys()), "required": sorted(set(getattr(obj, "_required", []))),
            "objs": {}, "defaults": {}, "beh": []}
@@ -284,7 +539,16 @@ def observe_class(obj, names, candidates, ctx):
             ser = repr(sorted((k, E.reify(v)) for k, v in doc.items())) if isinstance(doc, dict) else repr(E.reify(doc))
         except Exception as ex:  # noqa
             ser = "serialize-raises:" + E.exn_name(ex)
-        out["beh"].append(("ok", state, ser))
+        # a second way IN: the serialized document deserialized by the same class (first few accepted candidates)
+        des = ""
+        if n_deser < 3 and not ser.startswith("serialize-raises:"):
+            n_deser += 1
+            try:
+                back = Deserializer(obj).deserialize(doc)
+                des = repr(sorted((n, E.reify(getattr(back, n), S.struct_attrs)) for n in names))
+            except Exception as ex:  # noqa
+                des = "deserialize-raises:" + E.exn_name(ex)
+        out["beh"].append(("ok", state, ser, des))
     return out
 
 
@@ -364,6 +628,14 @@ def first_difference(o1, o2):
     return None, None
 
 
+def without_members(o, names):
+    """An observation of a defined class restricted to the members NOT in names (behaviour is not separable)."""
+    keep = lambda d: {k: v for k, v in d.items() if k not in names}
+    return {"def": "ok", "fields": [n for n in o["fields"] if n not in names],
+            "required": [n for n in o["required"] if n not in names], "objs": keep(o["objs"]),
+            "defaults": keep(o["defaults"]), "beh": []}
+
+
 def both_fail_to_serialize(x, y):
     """Same stored state, serialization raises for both: with two unserialisable members the error that
     surfaces first follows the order of declaration, which the property does not speak about."""
@@ -382,6 +654,19 @@ def decl_sig(dc):
     return s
 
 
+def union_stat(d):
+    """Shape of a top-level typing Union/Optional declaration: arity after flattening, position of None,
+    nesting, whether the field is also listed in _optional."""
+    s = d["ty"]
+    if s[0] not in ("union", "optional") or not d["annot"]:
+        return None
+    leaves = P.flat_leaves(s)
+    pos = [i for i, a in enumerate(leaves) if a == ("none",)]
+    where = "absent" if not pos else ("last" if pos == [len(leaves) - 1] else ("first" if pos == [0] else "middle"))
+    nested = any(a[0] in ("union", "optional") for a in (s[1] if s[0] == "union" else [s[1]]))
+    return "%s:arity=%d,none=%s,nested=%s,listed=%s" % (s[0], len(leaves), where, nested, d["opt"])
+
+
 def falsy(r):
     try:
         return not G.unreify(r)
@@ -396,6 +681,14 @@ def attribute(aspect, detail, d_base, d_var, o_base, o_var, name):
         pair = sorted([(d_base, o_base), (d_var, o_var)], key=lambda p: p[1]["def"] != "ok")
         (acc, oa), (rej, orj) = pair
         dflt = acc["kw"]
+        # a list / dict / set default: refused with ValueError("... mutable value as default ...") on SOME paths only
+        # (`=` next to a Field instance or a typing generic; after validation for the latter), accepted on the others
+        # (default=, `=` next to a Field class)
+        vals = [x for x in (d_base["eq"], d_base["kw"], d_var["eq"], d_var["kw"]) if x is not None]
+        if vals and all(x == vals[0] for x in vals) and vals[0][0] in ("list", "dict", "set") and \
+                any(d["eq"] is not None and o["def"] == "ValueError" and o.get("mutable_msg")
+                    for d, o in ((d_base, o_base), (d_var, o_var))):
+            return K_MUTABLE
         if (oa["def"] == "ok" and orj["def"] in ("TypeError", "ValueError") and dflt is not None and falsy(dflt)
                 and rej["eq"] is not None and rej["eq"] == dflt):
             return K_F12
@@ -407,6 +700,12 @@ def attribute(aspect, detail, d_base, d_var, o_base, o_var, name):
         o_t = o_base if "tuple-single-class" in tb else o_var
         if o_t["def"] == "ok" and o_t["objs"].get(name) == ("defective",):
             return K_TUPLE
+    if aspect == "required" and (union_stat(d_base) or union_stat(d_var)):
+        # which fields a typing Union/Optional marks optional depends on the SHAPE of the union only
+        side = lambda d: union_stat(d) or (("annot:" if d["annot"] else "assign:") + P.top_form(d["ty"])
+                                           + ("+_optional" if d["opt"] else ""))
+        a, b = sorted([side(d_base), side(d_var)])
+        return "C13/required/typing-optional/%s~%s" % (a, b)
     a, b = sorted([decl_sig(d_base), decl_sig(d_var)])
     return "C13/%s/%s~%s" % (aspect, a, b)
 
@@ -438,21 +737,42 @@ def run_class_cases(rep, cases, ctx, workdir, rnd, per_field):
                         if o["def"] == "ok":
                             o["beh"] = [("raise", "TypeError|ValueError") if b[0] == "raise" and b[1] in
                                         ("TypeError", "ValueError") else b for b in o["beh"]]
-            rep.stat("class-variants", "baseline-valid:%s" % base_ok)
+            stream = "class-variants" if not c.get("lattice") else "lattice:" + c["lattice"]
+            rep.stat(stream, "baseline-valid:%s" % base_ok)
             c["obs"] = obs
             c["cands"] = cands
             base = obs[0][0]
             nv = len(c["variants"])
-            rep.count("class-variants", 2 * nv, tuple(decl_sig(d) for d in c["variants"][0]["decls"]))
+            rep.count(stream, 2 * nv, tuple(decl_sig(d) for d in c["variants"][0]["decls"]))
             rep.count("behaviour", 2 * nv * len(cands))
-            rep.stat("class-variants", "definition:" + base["def"])
+            rep.stat(stream, "definition:" + base["def"])
+            for v in c["variants"]:
+                for i in changed_idxs(v):
+                    us = union_stat(v["decls"][i])
+                    if us:
+                        rep.stat("typing-unions", us)
+                        rep.count("typing-unions", 2, us)
             # semantic expectation of the base variant
             check_semantic(rep, c, base)
             for vi in range(1, nv):
                 v = c["variants"][vi]
                 i = v["changed"]
+                if i == "all":
+                    rep.stat(stream, "form:all-members-respelled")
+                    aspect, detail = first_difference(base, obs[0][vi])
+                    if aspect:
+                        # explained by the single-member variant carrying the same declaration?
+                        explained = any(w["changed"] not in (None, "all")
+                                        and w["decls"][w["changed"]] == v["decls"][w["changed"]]
+                                        and first_difference(base, obs[0][vj])[0]
+                                        for vj, w in enumerate(c["variants"]))
+                        if not explained:
+                            report(rep, "C13/combination/%s/%s~%s" % (
+                                aspect, "+".join(decl_sig(d) for d in c["variants"][0]["decls"]),
+                                "+".join(decl_sig(d) for d in v["decls"])), aspect, detail, c, 0, vi, False, False)
+                    continue
                 aspect, detail = first_difference(base, obs[0][vi])
-                rep.stat("class-variants", "form:" + P.top_form(v["decls"][i]["ty"]))
+                rep.stat(stream, "form:" + P.top_form(v["decls"][i]["ty"]))
                 if aspect:
                     key = attribute(aspect, detail, c["variants"][0]["decls"][i], v["decls"][i], base, obs[0][vi],
                                     names[i])
@@ -461,14 +781,18 @@ def run_class_cases(rep, cases, ctx, workdir, rnd, per_field):
                 aspect, detail = first_difference(obs[0][vi], obs[1][vi])
                 if aspect:
                     v = c["variants"][vi]
-                    long_names = [n for n, d in zip(names, v["decls"])
-                                  if d["annot"] and len(P.annotation_text(decl_line(n, d).split(": ", 1)[1]
-                                                                          .rsplit(" = ", 1)[0] if d["eq"] is not None
-                                                                          else decl_line(n, d).split(": ", 1)[1])) >= 50]
+                    long_names = [n for n, d in zip(names, v["decls"]) if d["annot"] and stored_len(d) >= 50]
                     o_f = obs[1][vi]
                     if long_names and o_f["def"] == "ok" and obs[0][vi]["def"] == "ok" and \
                             set(obs[0][vi]["fields"]) - set(o_f["fields"]) == set(long_names) & set(obs[0][vi]["fields"]):
                         key = K_FUTURE
+                        # the known defect explains the lost members only: the OTHER members must still agree
+                        rest = without_members(obs[0][vi], long_names), without_members(o_f, long_names)
+                        a2, d2 = first_difference(*rest)
+                        if a2:
+                            report(rep, "C13/future-annotations/%s/%s" % (a2, "+".join(
+                                decl_sig(d) for n, d in zip(names, v["decls"]) if n not in long_names)),
+                                a2, d2, c, vi, vi, False, True)
                     elif long_names and obs[0][vi]["def"] != o_f["def"] and \
                             all(n not in (o_f.get("fields") or []) for n in long_names):
                         key = K_FUTURE
@@ -574,24 +898,22 @@ def _eval_ns(ctx):
 
 
 def union_kept(s, ctx):
-    """typing kept every Union/Optional in s as written (no flattening / de-duplication)."""
+    """Every typing Union/Optional in s denotes, after typing's FLATTENING of nested Unions, exactly the members
+    written, in order: typing de-duplicated nothing (checked on the real typing object) and the model's notion of
+    object identity would de-duplicate nothing either (typing.List[int] vs list[int], see spellgen.model_key)."""
     ns = _eval_ns(ctx)
+    if not P.typing_cache_stable(s):
+        return False
     for n in P.walk(s):
         if n[0] in ("union", "optional"):
+            if not P.model_nodup(n):
+                return False
             try:
                 obj = eval(P.render(n), ns)
             except Exception:  # noqa
                 return True       # evaluation itself raises: compared as an outcome
-            want = len(n[1]) if n[0] == "union" else 2
-            if len(getattr(obj, "__args__", ())) != want:
+            if len(getattr(obj, "__args__", ())) != len(P.flat_leaves(n)):
                 return False
-            import typing
-            for m in (n[1] if n[0] == "union" else [n[1]]):
-                try:
-                    if typing.get_origin(eval(P.render(m), ns)) is typing.Union:
-                        return False
-                except Exception:  # noqa
-                    pass
     return True
 
 
@@ -623,9 +945,45 @@ def emit_decl(name, dc):
         E.blit(dc["opt"])))
 
 
-def run_correspondence(rep, spell_cases, decl_cases, ctx, workdir):
-    """spell_cases: [(ctxkind, spelling)], decl_cases: [decl dict].  Realises one probe class each (no
-    __future__ import), evaluates the model in Coq."""
+def observe_decl(obj):
+    if isinstance(obj, BaseException):
+        return ("raise", E.exn_name(obj))
+    fo = obj.get_all_fields_by_name().get("a")
+    if fo is None:
+        return ("ignored",)
+    o = observe_fieldobj(fo)
+    if o[0] != "field":
+        return o
+    dv = getattr(fo, "_default", None)
+    return ("field", o[1], None if dv is None else E.reify(dv), "a" in obj._required)
+
+
+def emit_dcase(dc, o):
+    fields = P.fields_in(dc["ty"], [])
+    vals = [v for v in (dc["eq"], dc["kw"]) if v is not None]
+    tbl = G.match_table(fields, vals)
+    if o[0] == "field":
+        ob = "(DField %s %s %s)" % (G.emit_field(o[1]), E.opt(o[2], E.pval), E.blit(o[3]))
+    elif o[0] == "ignored":
+        ob = "DIgnored"
+    elif o[0] == "defective":
+        ob = "DDefective"
+    else:
+        ob = "(DRaise %s)" % E.exn(o[1])
+    return "{| dc_tbl := %s; dc_env := env0; dc_decl := %s; dc_obs := %s |}" % (G.emit_table(tbl), emit_decl("a", dc), ob)
+
+
+def run_correspondence(rep, spell_cases, decl_cases, ctx, workdir, fut_cases=()):
+    """spell_cases: [(ctxkind, spelling)], decl_cases: [decl dict] realised as one probe class each WITHOUT the
+    __future__ import, fut_cases: [decl dict] realised WITH it; evaluates the model in Coq."""
+    fobs = []
+    if fut_cases:
+        fmod = load_module(workdir, "\n".join(class_src("F%d" % i, ["a"], [dc]) for i, dc in enumerate(fut_cases)),
+                           ctx, True)
+        try:
+            fobs = [observe_decl(getattr(fmod, "F%d" % i)) for i in range(len(fut_cases))]
+        finally:
+            unload(fmod)
     texts = []
     for i, (ck, s) in enumerate(spell_cases):
         src = P.render(s)
@@ -636,22 +994,7 @@ def run_correspondence(rep, spell_cases, decl_cases, ctx, workdir):
     mod = load_module(workdir, "\n".join(texts), ctx, False)
     try:
         sobs = [observe_probe(getattr(mod, "S%d" % i), ck) for i, (ck, _) in enumerate(spell_cases)]
-        dobs = []
-        for i, dc in enumerate(decl_cases):
-            obj = getattr(mod, "D%d" % i)
-            if isinstance(obj, BaseException):
-                dobs.append(("raise", E.exn_name(obj)))
-                continue
-            fo = obj.get_all_fields_by_name().get("a")
-            if fo is None:
-                dobs.append(("ignored",))
-                continue
-            o = observe_fieldobj(fo)
-            if o[0] != "field":
-                dobs.append(o)
-                continue
-            dv = getattr(fo, "_default", None)
-            dobs.append(("field", o[1], None if dv is None else E.reify(dv), "a" in obj._required))
+        dobs = [observe_decl(getattr(mod, "D%d" % i)) for i in range(len(decl_cases))]
     finally:
         unload(mod)
     skip = lambda o: o[0] == "unreifiable"
@@ -666,40 +1009,42 @@ def run_correspondence(rep, spell_cases, decl_cases, ctx, workdir):
     for dc, o in zip(decl_cases, dobs):
         if skip(o):
             continue
-        fields = P.fields_in(dc["ty"], [])
-        vals = [v for v in (dc["eq"], dc["kw"]) if v is not None]
-        tbl = G.match_table(fields, vals)
-        if o[0] == "field":
-            ob = "(DField %s %s %s)" % (G.emit_field(o[1]), E.opt(o[2], E.pval), E.blit(o[3]))
-        elif o[0] == "ignored":
-            ob = "DIgnored"
-        elif o[0] == "defective":
-            ob = "DDefective"
-        else:
-            ob = "(DRaise %s)" % E.exn(o[1])
-        ditems.append(("d", "{| dc_tbl := %s; dc_env := env0; dc_decl := %s; dc_obs := %s |}" % (
-            G.emit_table(tbl), emit_decl("a", dc), ob), (dc, o)))
+        ditems.append(("d", emit_dcase(dc, o), (dc, o)))
+    fitems = []
+    for dc, o in zip(fut_cases, fobs):
+        if skip(o):
+            continue
+        fitems.append(("f", "{| fc_len := %s; fc_case := %s |}" % (E.zlit(stored_len(dc)), emit_dcase(dc, o)), (dc, o)))
     per = 250
     index = []
-    for kind, its in (("s", items), ("d", ditems)):
+    for kind, its in (("s", items), ("d", ditems), ("f", fitems)):
         for s0 in range(0, len(its), per):
             chunk = its[s0:s0 + per]
-            ty = "scase" if kind == "s" else "dcase"
-            fn_m, fn_u = ("smismatch", "sunmodelled") if kind == "s" else ("dmismatch", "dunmodelled")
+            ty = {"s": "scase", "d": "dcase", "f": "fcase"}[kind]
+            fn_m, fn_u = {"s": ("smismatch", "sunmodelled"), "d": ("dmismatch", "dunmodelled"),
+                          "f": ("fmismatch", "funmodelled")}[kind]
             body = "Definition cases : list %s := %s.\n" % (ty, E.lst(["\n " + t for _, t, _ in chunk]))
             body += "Eval vm_compute in (indices_where %s cases 0).\n" % fn_m
             body += "Eval vm_compute in (indices_where %s cases 0).\n" % fn_u
+            if kind == "d":
+                body += "Eval vm_compute in (indices_where opt_spec_applies cases 0).\n"
+                body += "Eval vm_compute in (indices_where opt_spec_fails cases 0).\n"
             shards.append(body)
             index.append((kind, chunk))
     res = core.eval_cases(shards, "c13", HEADER % ctx.coq_env())
-    out = {"s": {"n": len(items), "mismatch": [], "unmodelled": 0}, "d": {"n": len(ditems), "mismatch": [], "unmodelled": 0}}
+    out = {"s": {"n": len(items), "mismatch": [], "unmodelled": 0},
+           "d": {"n": len(ditems), "mismatch": [], "unmodelled": 0, "spec_applies": 0, "spec_fails": []},
+           "f": {"n": len(fitems), "mismatch": [], "unmodelled": 0, "obs": fobs}}
     for (kind, chunk), (rc, so, se) in zip(index, res):
         vals = core.parse_eval(so)
-        if rc != 0 or len(vals) != 2:
+        if rc != 0 or len(vals) != (4 if kind == "d" else 2):
             raise RuntimeError("case shard failed to evaluate: %s" % (so + se)[-1500:])
         for i in core.parse_nat_list(vals[0]):
             out[kind]["mismatch"].append(chunk[i][2])
         out[kind]["unmodelled"] += len(core.parse_nat_list(vals[1]))
+        if kind == "d":
+            out["d"]["spec_applies"] += len(core.parse_nat_list(vals[2]))
+            out["d"]["spec_fails"] += [chunk[i][2] for i in core.parse_nat_list(vals[3])]
     return out, sobs, dobs
 
 
@@ -707,10 +1052,14 @@ def run_correspondence(rep, spell_cases, decl_cases, ctx, workdir):
 
 def run(rep, tier):
     rnd = random.Random(core.seed() * 1000003 + 13)
-    n_classes = 120 if tier == "quick" else 900
+    n_classes = 160 if tier == "quick" else 900
     max_depth = 2 if tier == "quick" else 3
     per_field = 4 if tier == "quick" else 6
+    import time
+    t0 = time.time()
+    timing = {}
     proofs_ok, model_ok = core.standard_proof_obligations(rep, "C13", ["theories/Check/C13chk.vo"])
+    timing["build+proofs"] = round(time.time() - t0, 1)
     ctx = S.Context()
     workdir = core.workdir("c13")
     import glob
@@ -718,9 +1067,20 @@ def run(rep, tier):
         os.remove(old)
     try:
         cases = [gen_class_case(rnd, i, ctx, max_depth) for i in range(n_classes)]
+        cases += optional_lattice(ctx, len(cases), tier)
+        cases += default_lattice(ctx, len(cases), tier)
+        cases += mutable_default_lattice(ctx, len(cases), tier)
+        cases += future_length_lattice(ctx, len(cases), tier)
         batch = 35
+        t1 = time.time()
         for s0 in range(0, len(cases), batch):
             run_class_cases(rep, cases[s0:s0 + batch], ctx, workdir, rnd, per_field)
+            for c in cases[s0:s0 + batch]:          # observations are only needed again for the two samples below
+                if c is not cases[0] and c is not cases[-1]:
+                    c.pop("obs", None)
+                    c.pop("cands", None)
+        timing["oracle"] = round(time.time() - t1, 1)
+        t1 = time.time()
         # correspondence cases: every spelling used, in its own context, plus Cls[...] context and corruptions
         seen = set()
         spell_cases = []
@@ -732,13 +1092,11 @@ def run(rep, tier):
                 return
             seen.add(key)
             spell_cases.append((ck, s))
-        for c in cases:
+        fut_cases = []
+        # the deterministic lattices first: the limits below must never cut them off
+        for c in sorted(cases, key=lambda c: 0 if c.get("lattice") else 1):
             for v in c["variants"]:
-                if v["changed"] is None:
-                    idxs = range(len(v["decls"]))
-                else:
-                    idxs = [v["changed"]]
-                for i in idxs:
+                for i in changed_idxs(v):
                     d = v["decls"][i]
                     add_spell("annot" if d["annot"] else "assign", d["ty"])
                     r = rnd.random()
@@ -754,15 +1112,26 @@ def run(rep, tier):
                             and union_kept(d["ty"], ctx):
                         seen.add(dk)
                         decl_cases.append(d)
-        limit = 1500 if tier == "quick" else 12000
+                    fk = ("f", decl_line("a", d), d["opt"])
+                    if fk not in seen and union_kept(d["ty"], ctx) and \
+                            (d["annot"] or rnd.random() < 0.1) and (c.get("lattice") or rnd.random() < 0.5):
+                        seen.add(fk)
+                        fut_cases.append(d)
+        limit = 3000 if tier == "quick" else 12000
         spell_cases = spell_cases[:limit]
         decl_cases = decl_cases[:limit]
+        fut_cases = fut_cases[:limit]
         for ck, s in spell_cases:
             rep.count("spelling->field", 1, (ck, P.signature(s)))
             rep.stat("spelling->field", "ctx:" + ck)
             rep.stat("spelling->field", "form:" + P.top_form(s))
         for d in decl_cases:
             rep.count("declaration->(field,default,required)", 1, decl_sig(d))
+        for d in fut_cases:
+            L = stored_len(d)
+            rep.count("future-declaration", 1, (decl_sig(d), min(L, 60)))
+            rep.stat("future-declaration", "annotation-length:" + ("not-an-annotation" if not d["annot"] else
+                     "<40" if L < 40 else ">60" if L > 60 else str(L)))
         if cases:
             c = cases[0]
             rep.sample({"class": class_body([m["name"] for m in c["members"]], c["variants"][0]["decls"]),
@@ -772,7 +1141,7 @@ def run(rep, tier):
                         "variants": len(c["variants"]), "observed": {k: c["obs"][0][-1].get(k) for k in ("def", "fields", "required")}})
         if model_ok:
             try:
-                r, sobs, dobs = run_correspondence(rep, spell_cases, decl_cases, ctx, workdir)
+                r, sobs, dobs = run_correspondence(rep, spell_cases, decl_cases, ctx, workdir, fut_cases)
             except RuntimeError as ex:
                 rep.broken("correspondence:coq-eval", str(ex))
                 r = None
@@ -787,6 +1156,27 @@ def run(rep, tier):
                                "%d cases, %d mismatches" % (r["s"]["n"], len(r["s"]["mismatch"])))
                 rep.obligation("correspondence:declaration", not r["d"]["mismatch"],
                                "%d cases, %d mismatches" % (r["d"]["n"], len(r["d"]["mismatch"])))
+                # spec clause of C13_optional_marking evaluated in Coq on the observed declarations
+                rep.count("spec:typing-optional-marking", r["d"]["spec_applies"])
+                for dc, o in r["d"]["spec_fails"]:
+                    want = not dc["opt"] and not any(a in (("none",), ("fcls", "NoneField")) or
+                                                     (a[0] == "inst" and a[1]["t"] == "none")
+                                                     for a in P.flat_leaves(dc["ty"]))
+                    rep.finding("C13/required/typing-optional/spec:%s" % union_stat(dc),
+                                "`%s`%s: observed %r; C13_optional_marking requires a field that is %s"
+                                % (decl_line("a", dc), " listed in _optional" if dc["opt"] else "", o,
+                                   "required" if want else "not required"),
+                                {"spec_decl": dc, "expect_required": want,
+                                 "python": P.MODULE_IMPORTS + "class A(Structure):\n" + "\n".join(
+                                     "    " + l for l in class_body(["a"], [dc])) + "\n"})
+                rep.obligation("spec-on-observed:typing-optional-marking", not r["d"]["spec_fails"],
+                               "%d declarations inside the domain of C13_optional_marking, %d failures"
+                               % (r["d"]["spec_applies"], len(r["d"]["spec_fails"])))
+                for o in r["f"]["obs"]:
+                    rep.stat("future-declaration", "outcome:" + (o[0] if o[0] != "raise" else o[1]))
+                rep.cov["streams"].setdefault("future-declaration", {})["outside_model_skipped"] = r["f"]["unmodelled"]
+                rep.obligation("correspondence:future-declaration", not r["f"]["mismatch"],
+                               "%d cases, %d mismatches" % (r["f"]["n"], len(r["f"]["mismatch"])))
                 concrete = any(not v["no_input"] for v in rep.violations)
                 if r["s"]["mismatch"] and not concrete:
                     ck, s, o = r["s"]["mismatch"][0]
@@ -802,31 +1192,66 @@ def run(rep, tier):
                                % len(r["d"]["mismatch"]),
                                {"declaration": decl_line("a", dc), "optional": dc["opt"], "observed": repr(o),
                                 "others": [(decl_line("a", a), repr(b)) for a, b in r["d"]["mismatch"][1:8]]})
+                if r["f"]["mismatch"] and not concrete:
+                    dc, o = r["f"]["mismatch"][0]
+                    rep.broken("correspondence:future-declaration",
+                               "model (Struct/Spelling.v class_result_future, guard from Gen/AnnotGuards.v) and typedpy "
+                               "differ on %d declarations under `from __future__ import annotations`"
+                               % len(r["f"]["mismatch"]),
+                               {"declaration": decl_line("a", dc), "optional": dc["opt"], "observed": repr(o),
+                                "stored_annotation_length": stored_len(dc),
+                                "others": [(decl_line("a", a), repr(b)) for a, b in r["f"]["mismatch"][1:8]]})
+        timing["correspondence"] = round(time.time() - t1, 1)
     finally:
         core.cleanup(workdir)
+    import resource
+    timing["max_rss_mb"] = resource.getrusage(resource.RUSAGE_SELF).ru_maxrss // 1024
+    rep.cov["timing_s"] = timing
     if not proofs_ok:
         from harness.props.c17 import broken_build
         broken_build(rep)
     rep.assumptions += [
-        "typing's own normalisation of Union arguments (flattening, de-duplication) is CPython's, not typedpy's: "
-        "modelled in pyeval, and the equivalence is claimed for unions typing keeps as written",
+        "typing's own normalisation of Union arguments (flattening, de-duplication) and its argument cache are CPython's, "
+        "not typedpy's: flattening is modelled in pyeval and proved (C13_union_flatten); Unions typing de-duplicates, and "
+        "typing Unions used as an ARGUMENT of another typing construct in a non-canonical member order (their meaning "
+        "depends on what the process evaluated before: typing's cache compares Unions as sets), are not generated",
         "re.match is an oracle (Section variable) for default validation, instantiated per case from the real re module",
-        "defaults are immutable scalars (int/float/str/bool); callable and None defaults are outside the explored space",
+        "defaults are immutable scalars (on scalar fields and unions of scalars) and list/dict/set literals (on collection "
+        "fields); callable and None defaults are outside the explored space",
         "exception precedence between several ill-formed members of one class is not compared (at most one per class)",
+        "the guards of Gen/AnnotGuards.v are recognised by AST shape; an unrecognised shape fails C13_src_rules (broken "
+        "obligation), it is not translated",
     ]
     return rep.finish(
-        rule="class cases = semantic classes of 1-4 members (field vocabulary of fieldgen, nesting <= %d, optional-ness, "
-             "scalar defaults valid/invalid/falsy); variants = a random base spelling per member + one variant per "
-             "other declaration form of each member, each realised with and without `from __future__ import "
-             "annotations`; candidate values = valid / one-point corruption / arbitrary / None / absent per member; "
-             "correspondence cases = every distinct (context, spelling) and declaration used, Cls[...] context and "
-             "wrong-kind corruptions; distinct = distinct spelling signatures" % max_depth)
+        rule="class cases = semantic classes of 1-4 members (field vocabulary of fieldgen, nesting <= %d, 22%% of members an "
+             "AnyOf of 2-4 different members with None at a random position, optional-ness, defaults valid/invalid/falsy); "
+             "variants = a random base spelling per member + one variant per other declaration form of each member (typing "
+             "Unions: as written, Optional[..], nested groups; each listed and not listed in _optional) + two variants with "
+             "ALL members respelled, each realised with and without `from __future__ import annotations`; deterministic "
+             "lattices (independent of VERIF_SEED): union shapes (arity 2-4 x position of None x nesting x member spelling x "
+             "listed/unlisted), scalar defaults x declaration forms, mutable defaults x declaration forms, annotation lengths "
+             "around the __future__ bound; candidate values = valid / one-point corruption / arbitrary / None / absent per "
+             "member, plus deserialization of the serialized form; correspondence cases = every distinct (context, spelling) "
+             "and declaration used (lattices first), Cls[...] context and wrong-kind corruptions, and the declarations again "
+             "under the __future__ import with the length of the stored annotation text; distinct = distinct spelling "
+             "signatures" % max_depth)
 
 
 def replay(obj):
     ctx = S.Context()
     workdir = core.workdir("c13replay")
     try:
+        if "spec_decl" in obj:
+            dc = obj["spec_decl"]
+            dc = dict(dc, ty=_tuplify(dc["ty"]), eq=_tuplify(dc["eq"]), kw=_tuplify(dc["kw"]))
+            m = load_module(workdir, class_src("A", ["a"], [dc]), ctx, False)
+            print("class A(Structure):" + "".join("\n    " + l for l in class_body(["a"], [dc])))
+            o = observe_decl(m.A)
+            unload(m)
+            want = obj["expect_required"]
+            print("required  : a field `a` that is %s" % ("required" if want else "not required"))
+            print("observed  :", o if o[0] != "field" else "field, %s" % ("required" if o[3] else "not required"))
+            return 0 if (o[0] == "field" and o[3] == want) else 1
         if "decls_a" not in obj:
             print("nothing to replay on the implementation:", obj.get("broken"), obj.get("detail", "")[:2000])
             for k in ("context", "spelling", "declaration", "observed"):
